@@ -247,6 +247,18 @@ func (x *Exec) frameAllow(c *SpecCtx, m *Expr, emit func(key string, whole bool,
 			}
 			return nil
 		}
+		if m.Name == "elems" && len(m.Args) == 1 {
+			// elems(T): the elements of every []T (type-wide, like T.f for pointees); needed when a loop writes elements
+			// of a slice the function built itself (loop havoc is type-wide)
+			et, err := x.goType(m.Args[0].String(), c.pkg)
+			if err != nil {
+				return fmt.Errorf("elems(%s): %v", m.Args[0].String(), err)
+			}
+			for _, lf := range leavesOf(et) {
+				emit(sliceKey(et, lf.Path), true, nil)
+			}
+			return nil
+		}
 		if m.Name == "field" && len(m.Args) == 1 && m.Args[0].Kind == "field" {
 			b, err := x.specEval(c, m.Args[0].Args[0])
 			if err != nil {
